@@ -136,6 +136,31 @@ def law_programs():
 
 
 # ---- nesting x copy matrix ------------------------------------------------------------------------------------------
+def derive_matrix():
+    """Every way the guide offers to get a container from a container -- alias, copy, deep_copy, + with an empty operand on
+    either side, + with itself, a slice that covers everything, a round trip through a tuple -- for empty and non-empty lists
+    and maps, followed by a mutation through the derived name or through the original; both are printed.  Only the alias shares."""
+    for kind, mk in (("list", lambda: List([Int(1), Int(2)])), ("list", lambda: List([])), ("map", lambda: Map(["k1"], [Int(1)])), ("map", lambda: Map([], []))):
+        if kind == "list":
+            derivs = [lambda: Id("x"), lambda: Core("copy", [Id("x")]), lambda: Core("deep_copy", [Id("x")]), lambda: Bin("+", Id("x"), List([])),
+                      lambda: Bin("+", List([]), Id("x")), lambda: Bin("+", Id("x"), Id("x")), lambda: Idx(Id("x"), Range(Int(0), Core("size", [Id("x")]))),
+                      lambda: Idx(Id("x"), Range(Int(0), Int(100))), lambda: MCall(MCall(Id("x"), "to_tuple", []), "to_list", []),
+                      lambda: Bin("+", Id("x"), Tuple([])), lambda: MCall(Id("x"), "to_list", [])]
+            muts = [lambda v: MCall(Id(v), "push", [Int(7)]), lambda v: MCall(Id(v), "clear", []), lambda v: MCall(Id(v), "insert", [Int(0), Int(8)]),
+                    lambda v: MCall(Id(v), "extend", [Tuple([Int(5)])])]
+        else:
+            derivs = [lambda: Id("x"), lambda: Core("copy", [Id("x")]), lambda: Core("deep_copy", [Id("x")]), lambda: Bin("+", Id("x"), Map([], [])),
+                      lambda: Bin("+", Map([], []), Id("x")), lambda: Bin("+", Id("x"), Id("x")), lambda: MCall(MCall(Id("x"), "to_tuple", []), "to_map", [])]
+            muts = [lambda v: MCall(Id(v), "insert", [Str("z"), Int(7)]), lambda v: MCall(Id(v), "clear", []), lambda v: DAsg(Id(v), "k1", Int(70)),
+                    lambda v: MCall(Id(v), "remove", [Str("k1")])]
+        for d in derivs:
+            for m in muts:
+                for through in ("y", "x"):
+                    reset_ids()
+                    yield Block([Asg("x", mk()), Asg("y", d()), Try(Block([m(through)]), [("e", "", Block([Core("print", [Str("error")])]))]),
+                                 Core("print", [Id("x")]), Core("print", [Id("y")]), Str("end")])
+
+
 def copy_matrix():
     """A mutable container `inn` wrapped in every nest of lists / tuples / maps of depth 1..3, derived by alias /
     copy / deep_copy, then mutated through `inn` (deep) or at the top level; both values printed."""
